@@ -38,6 +38,7 @@ def run(ctx: Ctx, rep: Report) -> None:
     rep.rule("C19-R2", "the trap's source is the datagram's origin on every path to the callback; the datagram's bytes are what is decoded", floor=3)
     rep.rule("C19-R3", "the callback is scheduled exactly once, after a successful decode, with the decoded trap", floor=2)
     rep.rule("C19-R4", "the receiver protocol forwards every datagram with its origin and never closes the transport", floor=4)
+    rep.rule("C19-R6", "the trap's bindings are read from the datagram in the order and at the positions the encoders and the RFCs use (shared with C06-R3)", floor=8)
     rep.rule("C19-R5", "community check through the community MPM; pythonic trap view reads the right bindings", floor=5)
     rep.assumptions += [
         "UDP delivery and asyncio's handling of an exception raised inside datagram_received (logged, listener keeps running) are not analysed",
@@ -339,3 +340,4 @@ def run(ctx: Ctx, rep: Report) -> None:
     meth = ti.methods.get("origin")
     oko = meth is not None and any(isinstance(n, ast.Return) and n.value is not None and norm(n.value).endswith(".source.address") for n in own_nodes(meth.node))
     rep.check(oko, "C19-R5", meth.site() if meth else f"{ti.module.path} (TrapInfo)", "TrapInfo.origin is the address of the trap's source", key="TrapInfo.origin|source")
+    rep.adopt_rules(ctx.sub_run("c06", rep), "C19-R6", ["C06-R3"])
